@@ -253,15 +253,21 @@ impl ContextBag {
     }
 
     fn is_ancestor_in_list(&self, context: &Context, list: &Vec<String>) -> IsAncestor {
+        // the nearest listed ancestor decides, independent of the order of the list
+        let mut nearest = IsAncestor::No;
         for context_name in list {
             if let Some(listed_context) = self.get_by_name(context_name) {
-                match self.is_ancestor(listed_context.index.unwrap(), context.index.unwrap(), 0) {
-                    IsAncestor::No => continue,
-                    IsAncestor::Yes(index, depth) => return IsAncestor::Yes(index, depth),
+                if let IsAncestor::Yes(index, depth) =
+                    self.is_ancestor(listed_context.index.unwrap(), context.index.unwrap(), 0)
+                {
+                    match nearest {
+                        IsAncestor::Yes(_, nearest_depth) if nearest_depth <= depth => (),
+                        _ => nearest = IsAncestor::Yes(index, depth),
+                    }
                 }
             }
         }
-        IsAncestor::No
+        nearest
     }
 
     pub fn is_allowed(
